@@ -24,11 +24,11 @@ import (
 )
 
 type AccCase struct {
-	Groups  []pbt.S // group expressions (0-2)
-	Datas   []pbt.S // accumulator expressions (0-3)
-	Sort    pbt.S   `json:",omitempty"`
-	Base    Case    // the templates' contexts; its Template is the first generated one
-	Wrapped []int   `json:",omitempty"` // how each data expression uses {.} (labels only)
+	Groups  []pbt.S  // group expressions (0-2)
+	Datas   []pbt.S  // accumulator expressions (0-3)
+	Sort    pbt.S    `json:",omitempty"`
+	Base    Case     // the templates' contexts; its Template is the first generated one
+	Wrapped []int    `json:",omitempty"` // how each data expression uses {.} (labels only)
 	Obs     *pbt.Obs `json:"-"`
 }
 
